@@ -96,7 +96,6 @@ func New(tr drpc.Transport) *Manager {
 func NewWithOptions(tr drpc.Transport, opts Options) *Manager {
 	m := &Manager{
 		tr:   tr,
-		wr:   drpcwire.NewWriter(tr, opts.WriterBufferSize),
 		rd:   drpcwire.NewReaderWithOptions(tr, opts.Reader),
 		opts: opts,
 
@@ -104,6 +103,9 @@ func NewWithOptions(tr drpc.Transport, opts Options) *Manager {
 		sfin:    make(chan struct{}, 1),
 		streams: make(chan streamInfo),
 	}
+
+	// writes go through the manager so that it notices when one fails
+	m.wr = drpcwire.NewWriter(transportWriter{m}, opts.WriterBufferSize)
 
 	// initialize the stream buffer
 	m.sbuf.init()
@@ -123,6 +125,22 @@ func NewWithOptions(tr drpc.Transport, opts Options) *Manager {
 	go m.manageStreams()
 
 	return m
+}
+
+// transportWriter hands writes to the transport and terminates the manager when
+// one fails. What has reached the wire is then no longer a sequence of whole
+// frames, so the connection is of no further use, and as long as reads do not
+// fail too nothing else would notice: the connection would never report itself
+// closed and a call waiting for an answer to what could not be sent would wait
+// forever.
+type transportWriter struct{ m *Manager }
+
+func (w transportWriter) Write(p []byte) (n int, err error) {
+	n, err = w.m.tr.Write(p)
+	if err != nil {
+		w.m.terminate(managerClosed.Wrap(err))
+	}
+	return n, err
 }
 
 // String returns a string representation of the manager.
